@@ -51,8 +51,12 @@ W = [
 
 path = os.path.join(common.VERIF, 'known_findings.json')
 data = json.load(open(path))
-data['findings'] = [e for e in data['findings'] if e.get('property') != 'C17']
+# entries repaired in the library (status "fixed") are kept as they are
+FIXED = {e['id'] for e in data['findings'] if e.get('property') == 'C17' and e.get('status') == 'fixed'}
+data['findings'] = [e for e in data['findings'] if e.get('property') != 'C17' or e['id'] in FIXED]
 for fid, what, actions, spec in W:
+    if fid in FIXED:
+        continue
     ex = c17.Exec('light')
     for i, a in enumerate(actions):
         ex.cur = i
